@@ -229,17 +229,21 @@ Proof.
       destruct (_ <? cnt); [apply complete_arg_value_done_good; assumption|apply cok_good].
 Qed.
 
-Lemma parse_opt_value_ok o count : a_num o <> None ->
-  exists st, parse_opt_value o count = Some st /\ st_ok st.
+Lemma parse_opt_value_ok o count w : a_num o <> None ->
+  exists st, parse_opt_value o count w = Some st /\ st_ok st.
 Proof.
-  unfold parse_opt_value. intros H. destruct (a_num o) as [r|] eqn:E; [|tauto].
+  unfold parse_opt_value. intros H. destruct (is_value_terminator o w).
+  { eexists; split; [reflexivity|exact I]. }
+  destruct (a_num o) as [r|] eqn:E; [|tauto].
   eexists; split; [reflexivity|]. destruct (count <? vmax r); cbn; [rewrite E; discriminate|exact I].
 Qed.
 
-Lemma parse_positional_ok c pi esc st : st_ok st ->
-  exists st' pi', parse_positional c pi esc st = Some (st', pi') /\ st_ok st'.
+Lemma parse_positional_ok c pi esc st w : st_ok st ->
+  exists st' pi', parse_positional c pi esc st w = Some (st', pi') /\ st_ok st'.
 Proof.
   intros Hst. unfold parse_positional.
+  destruct (negb _ && _).
+  { destruct esc; do 2 eexists; split; try reflexivity; exact I. }
   set (na := match find_pos c pi with
              | Some a => match a_get_action a with
                          | AAppend => usize_max
@@ -251,7 +255,7 @@ Proof.
   - destruct (p =? pi).
     + destruct (n + 1 <? na); [|destruct esc]; do 2 eexists; split; try reflexivity; exact I.
     + destruct (1 <? na); [|destruct esc]; do 2 eexists; split; try reflexivity; exact I.
-  - destruct (parse_opt_value_ok o cnt Hst) as [st' [E Hs]]. rewrite E. do 2 eexists; split; [reflexivity|exact Hs].
+  - destruct (parse_opt_value_ok o cnt w Hst) as [st' [E Hs]]. rewrite E. do 2 eexists; split; [reflexivity|exact Hs].
 Qed.
 
 (** one step of the shadow parse: no panic, no fuel exhaustion; the next node is the same or a
@@ -261,7 +265,7 @@ Lemma shadow_step_ok w cur pi esc st vaf : args_ok cur -> st_ok st ->
     (cur' = cur \/ In cur' (c_subs cur)) /\ st_ok st'.
 Proof.
   intros Hok Hst. unfold shadow_step.
-  destruct (parse_positional_ok cur pi esc st Hst) as [stp [pip [Ep Hp]]]. rewrite Ep.
+  destruct (parse_positional_ok cur pi esc st w Hst) as [stp [pip [Ep Hp]]]. rewrite Ep.
   destruct (if _ && utf8_valid w then find_subcommand cur w else None) as [nc|] eqn:Es.
   { do 5 eexists. split; [reflexivity|]. split; [|exact I]. right.
     destruct (_ && utf8_valid w); [|discriminate]. unfold find_subcommand in Es.
@@ -272,14 +276,14 @@ Proof.
   { destruct st as [|p n|o cnt];
       try (unfold opt_allows_hyphen in Eh; destruct w as [|b t]; [discriminate|];
            rewrite andb_false_r in Eh; discriminate).
-    destruct (parse_opt_value_ok o cnt Hst) as [st' [E Hs]]. rewrite E.
+    destruct (parse_opt_value_ok o cnt w Hst) as [st' [E Hs]]. rewrite E.
     do 5 eexists; split; [reflexivity|]; split; [left; reflexivity|assumption]. }
   destruct (to_long w) as [[[flag u] value]|].
   { destruct u; [|do 5 eexists; split; [reflexivity|]; split; [left; reflexivity|exact I]].
     destruct (find_long_visible cur flag) as [o|] eqn:Eo.
     - pose proof (args_ok_num _ _ Hok (find_long_visible_in _ _ _ Eo)) as Hn.
       destruct (a_num o) as [r|] eqn:En; [|tauto].
-      destruct (r_takes_values r && is_none value);
+      destruct (r_takes_values r && is_none value && negb (a_req_eq o));
         do 5 eexists; (split; [reflexivity|]); (split; [left; reflexivity|]); cbn; try exact I.
       rewrite En; discriminate.
     - destruct (pos_allows_hyphen cur pi);
@@ -289,7 +293,7 @@ Proof.
     destruct (parse_shortflags cur short) as [| |leading [o|] short'] eqn:E; try tauto.
     - unfold parse_shortflags in E. apply parse_shortflags_loop_opt in E.
       pose proof (args_ok_num _ _ Hok E) as Hn.
-      destruct (is_none (next_value_os short'));
+      destruct (is_none (next_value_os short') && negb (a_req_eq o));
         do 5 eexists; (split; [reflexivity|]); (split; [left; reflexivity|]); cbn; try exact I. assumption.
     - destruct (utf8_valid w && forallb (has_short cur) (decode leading)).
       { do 5 eexists; split; [reflexivity|]; split; [left; reflexivity|exact I]. }
@@ -298,7 +302,7 @@ Proof.
   destruct st as [|p n|o cnt].
   - do 5 eexists; split; [reflexivity|]; split; [left; reflexivity|assumption].
   - do 5 eexists; split; [reflexivity|]; split; [left; reflexivity|assumption].
-  - destruct (parse_opt_value_ok o cnt Hst) as [st' [E Hs]]. rewrite E.
+  - destruct (parse_opt_value_ok o cnt w Hst) as [st' [E Hs]]. rewrite E.
     do 5 eexists; split; [reflexivity|]; split; [left; reflexivity|assumption].
 Qed.
 
